@@ -372,6 +372,29 @@ def rule_hits(ck):
             fails = [c for x in prog.with_closures(h.path) for c in x.calls() if "from_residual" in c.name] if False else [c for c in h.calls() if "from_residual" in c.name]
             errs = [i for i, j, pl, rv, sp in h.assigns() if pl == [0] and not (rv["r"] == "agg" and rv.get("variant") == "Ok")]
             ck.ob("mpt.hit_bookkeeping", "format_log_message/cannot-fail", not fails and not errs, f"{len(fails)} `?` exits, {len(errs)} non-Ok results", h.loc(fails[0].bb) if fails else h.loc(), what="a log message whose placeholder cannot be evaluated makes the logpoint abort the stop handling: the program stays halted without a stopped event and nothing is logged")
+    # what may abort the handling of a stop (an error exit here leaves the program halted with no `stopped` event and no
+    # continuation): only the transport, a missing debugger, and the resume itself. An evaluation failure (condition,
+    # hit condition, log template) is rendered as output and decided, never propagated.
+    allowed = {"should_skip_breakpoint": ("drain_events", "ok_or_else", "format_log_message"),
+               "emit_stop_reason": ("drain_events", "ok_or_else", "continue_debugee_with_reason", "should_skip_breakpoint", "context")}
+    for nm, okset in allowed.items():
+        gs = [g_ for p_, g_ in prog.fns.items() if p_.endswith("::" + nm)]
+        if not gs:
+            continue
+        g_ = gs[0]
+        srcs = []
+        for c in g_.calls():
+            if c.path.endswith("FromResidual::from_residual"):
+                e = expr_of(g_, c.args[0], depth=8)
+                while isinstance(e, tuple) and e[0] in ("field", "try", "ref"):
+                    e = e[1]
+                if isinstance(e, tuple) and e[0] == "call" and e[1].endswith("::branch") and e[2]:
+                    e = e[2][0]
+                    while isinstance(e, tuple) and e[0] in ("field", "try", "ref"):
+                        e = e[1]
+                srcs.append(e[1].rsplit("::", 1)[-1] if isinstance(e, tuple) and e[0] == "call" else expr_str(e, 3))
+        bad = sorted({x for x in srcs if x not in okset})
+        ck.ob("mpt.hit_bookkeeping", f"{nm}/only-transport-and-resume-errors-abort-the-stop-handling", not bad and bool(srcs), f"`?` sources: {sorted(set(srcs))}" + (f"; not allowed: {bad}" if bad else ""), g_.loc(), what="a failure while deciding about a breakpoint stop is propagated: the adapter neither reports the stop nor resumes, the program stays halted silently")
     # every recorded hit counts exactly once
     rh_ = [g for p_, g in prog.fns.items() if p_.endswith("::record_breakpoint_hit")]
     if rh_:
